@@ -377,8 +377,19 @@ func runC17(c *Ctx) {
 					}
 					if dB.Totals != nil && mustD(dB.Totals.Payable).Cmp(mustD(dA.Totals.TotalWithTax)) == 0 && dB.Totals.Rounding != nil {
 						c.R.Count("remove_included_with_rounding_residue", 1)
-						// the residue recorded must be exactly the difference
-						if mustD(dB.Totals.TotalWithTax).Add(mustD(*dB.Totals.Rounding)).Cmp(mustD(dB.Totals.Payable)) != 0 {
+						// the residue recorded must be exactly the difference.  One presentation
+						// artefact is not a defect (§10.10): under the precise rule the presented
+						// total with tax x̄ and payable are roundings of x and x+r, and for r on the
+						// currency grid round(x+r) = round(x)+r holds unless x is an exact half
+						// unit and x, x+r have opposite signs (symmetric rounding, which this very
+						// property demands).  Exactly that case — one unit, opposite signs — is
+						// counted instead of reported.
+						twtB, payB := mustD(dB.Totals.TotalWithTax), mustD(dB.Totals.Payable)
+						gap := twtB.Add(mustD(*dB.Totals.Rounding)).Sub(payB)
+						unit := dec.New(1, payB.E)
+						if (gap.Cmp(unit) == 0 || gap.Neg().Cmp(unit) == 0) && twtB.Sign()*payB.Sign() < 0 {
+							c.R.Count("remove_included_residue_tie_across_zero", 1)
+						} else if gap.Sign() != 0 {
 							c.R.Fail("remove-included:rounding", fmt.Sprintf("%s: total_with_tax %s + rounding %s ≠ payable %s", b.origin, dB.Totals.TotalWithTax, *dB.Totals.Rounding, dB.Totals.Payable), wit())
 						}
 					}
